@@ -1348,11 +1348,11 @@ class C18(Check):
     def compare(self, case, io, mo):
         if not isinstance(mo, dict) or "lim" not in mo:
             return f"driver: {mo}"
-        if not isinstance(io, dict) or "lim" not in io:
-            return f"impl: {io}"
         if not self.in_fragment(case):
             self.stats["outside_fragment"] = self.stats.get("outside_fragment", 0) + 1
             return None
+        if not isinstance(io, dict) or "lim" not in io:
+            return f"impl: {io}"
         self.stats["compared"] = self.stats.get("compared", 0) + 1
         if case.get("cyc"):
             self.stats["cyclic_compared"] = self.stats.get("cyclic_compared", 0) + 1
